@@ -38,17 +38,17 @@ Example accept_nonvacuous :
 Proof. vm_compute. repeat split; reflexivity. Qed.
 
 Example history_nonvacuous :
-  map r_accepted (snd (run ch recover_oracle kd load_std std_chain init hist)) =
+  map r_accepted (snd (run ch recover_oracle kd load_std pre_std std_chain init hist)) =
     [true; false; false; true; true; false; false; true; false; false; true; false] /\
-  map r_executed (snd (run ch recover_oracle kd load_std std_chain init hist)) =
+  map r_executed (snd (run ch recover_oracle kd load_std pre_std std_chain init hist)) =
     [[0]; []; []; [1; 2]; []; []; []; []; []; []; [5; 6]; []] /\
-  map r_created (snd (run ch recover_oracle kd load_std std_chain init hist)) =
+  map r_created (snd (run ch recover_oracle kd load_std pre_std std_chain init hist)) =
     [[]; []; []; [(2, 2%N)]; []; []; []; []; []; []; [(5, 4%N); (6, 5%N)]; []] /\
-  map (fst (run ch recover_oracle kd load_std std_chain init hist)) [0; 10] = [6%N; 1%N].
+  map (fst (run ch recover_oracle kd load_std pre_std std_chain init hist)) [0; 10] = [6%N; 1%N].
 Proof. vm_compute. repeat split; reflexivity. Qed.
 
 Example checker_nonvacuous :
-  Pb ch recover_oracle [0; 10] init (trace ch recover_oracle kd load_std std_chain init hist) = true.
+  Pb ch recover_oracle [0; 10] init (trace ch recover_oracle kd load_std pre_std std_chain init hist) = true.
 Proof. vm_compute. reflexivity. Qed.
 
 (** the checker is not trivially true: a trace in which the replayed tx executes again is refused *)
@@ -98,7 +98,7 @@ Qed.
 
 Example at_most_once_nonvacuous :
   hash_binding ch recover_oracle hist /\
-  all_executed (trace ch recover_oracle kd load_std std_chain init hist) = [0; 1; 2; 5; 6].
+  all_executed (trace ch recover_oracle kd load_std pre_std std_chain init hist) = [0; 1; 2; 5; 6].
 Proof. split; [apply binding_b_sound; vm_compute; reflexivity|vm_compute; reflexivity]. Qed.
 
 (* ------------------------------------------------------------------ account types and touched accounts *)
@@ -114,11 +114,11 @@ Definition hist_touch : list tx :=
    TxCosmos 10 0 false true; TxEth [touching g0 [0; 1]]].
 
 Example touch_nonvacuous :
-  map r_accepted (snd (run ch recover_oracle kd load_std std_chain init hist_touch)) =
+  map r_accepted (snd (run ch recover_oracle kd load_std pre_std std_chain init hist_touch)) =
     [true; true; true; true; false; false; false; false] /\
-  all_executed (trace ch recover_oracle kd load_std std_chain init hist_touch) = [0; 1; 2; 3] /\
-  map (fst (run ch recover_oracle kd load_std std_chain init hist_touch)) [0; 1; 10] = [2%N; 2%N; 1%N] /\
-  Pb ch recover_oracle [0; 1; 10] init (trace ch recover_oracle kd load_std std_chain init hist_touch) = true /\
+  all_executed (trace ch recover_oracle kd load_std pre_std std_chain init hist_touch) = [0; 1; 2; 3] /\
+  map (fst (run ch recover_oracle kd load_std pre_std std_chain init hist_touch)) [0; 1; 10] = [2%N; 2%N; 1%N] /\
+  Pb ch recover_oracle [0; 1; 10] init (trace ch recover_oracle kd load_std pre_std std_chain init hist_touch) = true /\
   hash_binding ch recover_oracle hist_touch.
 Proof.
   split; [vm_compute; reflexivity|]. split; [vm_compute; reflexivity|]. split; [vm_compute; reflexivity|].
@@ -131,8 +131,8 @@ Qed.
 Lemma eth_only_loader_refuted :
   exists kinds ts,
     hash_binding ch recover_oracle ts /\
-    count_occ Nat.eq_dec (all_executed (trace ch recover_oracle kinds load_eth_only std_chain init ts)) 0 = 2 /\
-    Pb ch recover_oracle [0; 1; 10] init (trace ch recover_oracle kinds load_eth_only std_chain init ts) = false.
+    count_occ Nat.eq_dec (all_executed (trace ch recover_oracle kinds load_eth_only pre_std std_chain init ts)) 0 = 2 /\
+    Pb ch recover_oracle [0; 1; 10] init (trace ch recover_oracle kinds load_eth_only pre_std std_chain init ts) = false.
 Proof.
   exists kd, hist_touch. split; [apply binding_b_sound; vm_compute; reflexivity|].
   split; vm_compute; reflexivity.
@@ -141,12 +141,38 @@ Qed.
 (** … while it is safe for every history whose accounts are all EthAccounts (the only kind the previous
     rounds generated): on that class the two loaders cannot be told apart *)
 Example eth_only_loader_same_on_eth_accounts :
-  snd (run ch recover_oracle eth load_eth_only std_chain init hist_touch) =
-  snd (run ch recover_oracle eth load_std std_chain init hist_touch).
+  snd (run ch recover_oracle eth load_eth_only pre_std std_chain init hist_touch) =
+  snd (run ch recover_oracle eth load_std pre_std std_chain init hist_touch).
 Proof. vm_compute. reflexivity. Qed.
 
 Example eth_only_loader_effect :
-  map r_accepted (snd (run ch recover_oracle kd load_eth_only std_chain init hist_touch)) =
+  map r_accepted (snd (run ch recover_oracle kd load_eth_only pre_std std_chain init hist_touch)) =
     [true; true; true; true; true; true; true; false] /\
-  all_executed (trace ch recover_oracle kd load_eth_only std_chain init hist_touch) = [0; 1; 2; 3; 0; 1].
+  all_executed (trace ch recover_oracle kd load_eth_only pre_std std_chain init hist_touch) = [0; 1; 2; 3; 0; 1].
 Proof. vm_compute. split; reflexivity. Qed.
+
+(* ------------------------------------------------------------------ the nonce a creation runs with *)
+
+(** a creation followed by another message of the same signer in one tx: the ante raised the sequence by two
+    before the creation runs; it is still deployed at the address of (signer, 0), under the current shape of
+    ApplyEvmMsg and under the one before fix 80f60c9 *)
+Definition c0 := mk 0 0 (Some ch) (Some 0) ExecOk true.
+Definition c1 := mk 1 1 (Some ch) (Some 0) ExecOk false.
+
+Example create_in_multi_msg_nonvacuous :
+  r_created (snd (deliver ch recover_oracle kd load_std pre_std std_chain init (TxEth [c0; c1]))) = [(0, 0%N)] /\
+  r_created (snd (deliver ch recover_oracle kd load_std pre_reset_always std_chain init (TxEth [c0; c1]))) = [(0, 0%N)] /\
+  pre_create_resets pre_std /\ pre_create_resets pre_reset_always.
+Proof. split; [vm_compute; reflexivity|]. split; [vm_compute; reflexivity|]. split; intros cur n; reflexivity. Qed.
+
+(** if the reset only undid ONE ante increment the creation would run with nonce 2: deployed at the address of
+    (signer, 2), which no message of the tx carries — the checker refuses that trace *)
+Lemma pre_reset_if_single_increment_refuted :
+  let d := deliver ch recover_oracle kd load_std pre_reset_if_single_increment std_chain init (TxEth [c0; c1]) in
+  r_created (snd d) = [(0, 2%N)] /\
+  Pb ch recover_oracle [0] init [(TxEth [c0; c1], snd d, fst d)] = false /\
+  ~ pre_create_resets pre_reset_if_single_increment.
+Proof.
+  split; [vm_compute; reflexivity|]. split; [vm_compute; reflexivity|].
+  intro H. specialize (H 2%N 0%N). vm_compute in H. discriminate.
+Qed.
